@@ -541,3 +541,36 @@ def r_fresh_members(ctx: Ctx, rule: str, clauses=("copy", "iter")):
                        f"`{bad[1].text(50)}` suspended; an overlapping flush()/cancel_group() that adds or drops a key meanwhile makes the "
                        "gather raise RuntimeError (dictionary changed size during iteration) although no task or callback raised"))
     rep.floor(rule, "gathers in gather_and_close judged", n_g, 2)
+
+
+def r_no_live_iteration(ctx: Ctx, rule: str, funcs=("flush", "gather_and_close")):
+    """ITERATE-ACROSS-SUSPENSION: a `for` loop over a registry itself (the attribute, or a live view of it) whose body suspends keeps an
+    iterator over a container that other coroutines change meanwhile - cancel_group()/cancel_all() file cancelled spawners, tasks move
+    between the task registries, an overlapping flush() clears - and the next step of the loop raises RuntimeError (changed size during
+    iteration) out of the method, whatever return_exceptions says."""
+    rep = ctx.rep
+    rep.rule(rule, "ITERATE-ACROSS-SUSPENSION: in flush / gather_and_close no `for` loop (or comprehension with an await) iterates a task or "
+                   "spawner registry directly - attribute or live view - while its body suspends; a copy taken for the loop (list(...), a "
+                   "snapshot dictionary) is fine")
+    n = 0
+    for name in funcs:
+        for f in ctx.pool_funcs(name):
+            g = ctx.an.cfg(f)
+            heads = [x for x in g.nodes if x.pred and x.ast is not None and isinstance(x.ast, (ast.For, ast.AsyncFor)) and x.op in ("iter", "for", "next", "loop")]
+            seen = set()
+            for h in heads:
+                st = h.ast
+                if id(st) in seen:
+                    continue
+                seen.add(id(st))
+                n += 1
+                if not _registry_fields(ctx, h.func, h.env, st.iter):
+                    continue
+                eager = _eager_points(ctx, g, h, h.func, h.env, st.iter)
+                if [p for p in eager if (p[2] if len(p) > 2 else "copy") == "copy"]:
+                    continue  # iterates a copy
+                body_susp = [m for m in g.nodes if m.pred and st in m.loops and ctx.effective(m)]
+                rep.ob(rule, "no loop iterates a registry directly while its body suspends", not body_susp, node=h,
+                       detail="" if not body_susp else f"`{ast.unparse(st.iter)[:50]}` is iterated live and `{body_susp[0].text(50)}` suspends inside the loop: a member "
+                                                       "added or removed meanwhile makes the next step raise RuntimeError out of the method")
+    rep.ob(rule, "loops of flush / gather_and_close examined", True, construct=f"{n} loop(s)")
